@@ -6,8 +6,12 @@ that hold for the leaf's pair of variants:
     r and s identical;  r = Empty;  r = Epsilon and s nullable;  (not r1, not s2) with sub(s2, r1);
     s = Union and  exists x in s: sub(r, x);      r = Inter and  exists x in r: sub(x, s);
     r = Union and  forall x in r: sub(x, s);      s = Inter and  forall x in s: sub(r, x);
-    concat_inclusion(decompose r, decompose s)  (the rigid/flexible matcher, NOT decided here - see DESIGN 7).
-Returning false is always sound.  R2: is_subsumed must exclude the operand itself and remove_subsumed must remove
+    concat_inclusion(decompose r, decompose s)  (the rigid/flexible matcher; its matching loops are NOT decided - DESIGN 7).
+Returning false is always sound.  R3 decides one necessary condition of the matcher: anchoring.  The flexible regions
+are the gaps between matched rigid patterns, so the pattern list handed to the un-anchored searches must not begin or
+end with a rigid pattern: on every path of concat_inclusion that answers true, the rigidity of the first and of the
+last pattern was decided, and a rigid first (last) pattern was matched by rigid_prefix_match (rigid_suffix_match) at
+the very start (end) of u, with u and v cut by the same prefix length.  R2: is_subsumed must exclude the operand itself and remove_subsumed must remove
 exactly the operand it tested; included_in delegates to sub_language in order.
 """
 from .. import terms as T
@@ -30,6 +34,7 @@ def run(ctx):
     variants_ok(ctx)
     guarded(ctx, 'C16.R1', 'C16.R1/sub_language', r1_schemes)
     guarded(ctx, 'C16.R2', 'C16.R2/subsumption', r2_subsumption)
+    guarded(ctx, 'C16.R3', 'C16.R3/anchoring', r3_anchoring)
 
 
 def quant_matches(f, kind, lst, bodyf):
@@ -162,3 +167,83 @@ def r2_subsumption(ctx):
                 role = 'one-test-per-iteration'
             ctx.obligation(ok)
             (ctx.ok if ok else ctx.violation)('C16.R2', 'C16.R2/remove_subsumed/%s' % role, rs, fn.site(), {'calls': [T.show(('call',) + c)[:160] for c in calls]}, cfg)
+
+
+def r3_anchoring(ctx):
+    u0, v0 = A(0), A(1)
+    b = ('call', RE + 'base_patterns', (v0,))
+    nb = T.typed(('len', b), 'usize')
+    for cfg in ('dev', 'rel'):
+        an = analyse(ctx, cfg, CI, [], uninterpreted=lambda p: p.startswith('regular_expressions::'))
+        ip, fn = an.ip, an.fn
+        ntrue = 0
+        kinds = set()
+        for o in an.outs:
+            if o.kind != 'ret':
+                continue   # slice bounds of the cuts depend on BasePattern::len facts that are not modelled
+            if o.value == FALSE:
+                continue
+            if o.value != TRUE:
+                ctx.unanalysable('C16.R3', 'C16.R3/concat_inclusion/boolean-leaf', fn.path, fn.site(), {'returned': T.show(ip.to_term(o.state, o.value))[:120]}, cfg)
+                continue
+            ntrue += 1
+            st = o.state
+            atoms = []      # (positive?, element term)
+            matched = {}    # (which, pattern term) -> (u arg, v arg)
+            for f in st.pc:
+                pos = f[0] != 'not'
+                g = f if pos else f[1]
+                if g[0] == 'fld' and g[2] == 'is_rigid':
+                    atoms.append((pos, g[1]))
+                if pos and g[0] == 'call' and g[1] in (RE + 'rigid_prefix_match', RE + 'rigid_suffix_match'):
+                    matched[(g[1].rsplit('_', 2)[1], g[2][2])] = (g[2][0], g[2][1])
+            first = [(pos, x) for pos, x in atoms if x[0] == 'elem' and x[2] == I(0)]
+            last = [(pos, x) for pos, x in atoms if x[0] == 'elem' and x[2] == T.mk_sub(T.typed(('len', x[1]), 'usize'), I(1))]
+            other = [x for pos, x in atoms if (pos, x) not in first and (pos, x) not in last]
+            ok = not other
+            why = []
+            if other:
+                why.append('rigidity test of a pattern that is neither first nor last')
+            if ip.entails(st, eq(nb, I(0))):
+                kinds.add('no-patterns')
+            else:
+                if not any(x[1] == b for pos, x in first):
+                    ok = False
+                    why.append('rigidity of the first pattern not decided on an accepting path')
+                # the last pattern of what remains after the prefix cut: decided, or nothing remains
+                lens = {t for f in st.pc for t in T.subterms(f) if t[0] == 'len' and t[1] != b and b in list(T.subterms(t[1]))}
+                rest_empty = any(ip.entails(st, eq(T.typed(t, 'usize'), I(0))) for t in lens)
+                if not last and not rest_empty:
+                    ok = False
+                    why.append('rigidity of the last pattern not decided on an accepting path')
+                for pos, x in first:
+                    if pos:
+                        m = matched.get(('prefix', x))
+                        if m is None or m != (u0, v0):
+                            ok = False
+                            why.append('rigid first pattern accepted without rigid_prefix_match(u, v, it)')
+                        kinds.add('rigid-prefix')
+                for pos, x in last:
+                    if pos:
+                        m = matched.get(('suffix', x))
+                        good = m is not None
+                        if good:
+                            ua, va = m
+                            if ua == u0 and va == v0:
+                                pass
+                            elif ua[0] == 'slice' and va[0] == 'slice' and ua[1] == u0 and va[1] == v0 and ua[2] == va[2] and ua[3] == T.typed(('len', u0), 'usize') and va[3] == T.typed(('len', v0), 'usize'):
+                                k = ua[2]
+                                good = k[0] == 'call' and k[1].endswith('BasePattern::len') and k[2] == (('elem', b, I(0)),)
+                            else:
+                                good = False
+                        if not good:
+                            ok = False
+                            why.append('rigid last pattern accepted without rigid_suffix_match on the (equally cut) u and v')
+                        kinds.add('rigid-suffix')
+            ctx.obligation(ok)
+            (ctx.ok if ok else ctx.violation)('C16.R3', 'C16.R3/concat_inclusion/accepting-path-anchors-rigid-first-and-last-pattern', fn.path, fn.site(),
+                                              {'why': why, 'rigidity_facts': [('+' if p_ else '-') + T.show(x)[:160] for p_, x in atoms]}, cfg)
+        for need in ('no-patterns', 'rigid-prefix', 'rigid-suffix'):
+            okn = need in kinds
+            ctx.obligation(okn)
+            (ctx.ok if okn else ctx.violation)('C16.R3', 'C16.R3/concat_inclusion/case-present:%s' % need, fn.path, fn.site(), {'accepting_paths': ntrue}, cfg)
